@@ -200,7 +200,7 @@ def r5_dimensions(repo, rep):
   closure, edges = T.closure(roots)
   D = dimsmod.Dims(repo, T, SEEDS)
   D.universe = closure
-  n_cmp = n_known = n_add = 0
+  n_cmp = n_known = n_add = n_round = 0
   for q, f in sorted(closure.items()):
     if f.module.name in ('heapdict', 'geoeligibility', 'tbrmmdata', 'tbrmmdesign'):
       continue
@@ -223,6 +223,20 @@ def r5_dimensions(repo, rep):
                         % (norm(sub)[:80], da, db), f.loc(sub), nontrivial=(da not in (0, dimsmod.POLY) or db not in (0, dimsmod.POLY)))
           if isinstance(sub, ast.Call):
             ln = au.lib_name(f.module, sub.func) or norm(sub.func)
+            # rounding to a fixed grid (round(x, 2), numpy.floor(x), x.round(1)) is an absolute tolerance
+            grid_arg = None
+            if ln in ('round', 'numpy.round', 'numpy.around', 'numpy.floor', 'numpy.ceil', 'numpy.trunc', 'numpy.rint', 'math.floor', 'math.ceil',
+                      'math.trunc') and sub.args:
+              grid_arg = sub.args[0]
+            elif isinstance(sub.func, ast.Attribute) and sub.func.attr == 'round' and au.lib_name(f.module, sub.func) is None:
+              grid_arg = sub.func.value
+            if grid_arg is not None:
+              n_round += 1
+              dg = D.dim(f, grid_arg, node)
+              rep.check(dg is None or dg in (0, dimsmod.POLY), 'R5/dimension', '%s: rounding %s applies to a unit-free quantity' % (f.name, norm(sub)[:40]),
+                        f.qualname, norm(sub)[:120],
+                        'the call `%s` rounds a quantity in (response unit)^%s to a fixed grid: an absolute precision on a response-scaled value, so multiplying all responses (and the budget range) by c changes which designs pass the tests that use it'
+                        % (norm(sub)[:80], dg), f.loc(sub), nontrivial=dg is not None)
             if ln in ('numpy.isclose', 'numpy.allclose', 'math.isclose', 'numpy.testing.assert_allclose') and len(sub.args) >= 2:
               da, db = D.dim(f, sub.args[0], node), D.dim(f, sub.args[1], node)
               atol = au.kwarg(sub, 'atol') or au.kwarg(sub, 'abs_tol')
@@ -240,6 +254,7 @@ def r5_dimensions(repo, rep):
                   'the expression `%s` adds quantities in (response unit)^%s and (response unit)^%s: the result is not equivariant under scaling of the responses' % (txt[:80], l, r),
                   f.loc(e))
   rep.extra['comparisons_in_design_path'] = n_cmp
+  rep.extra['rounding_sites_in_design_path'] = n_round
   rep.extra['comparisons_with_both_dimensions_known'] = n_known
   rep.floor('comparisons with known dimensions', n_known, 15)
 
